@@ -7,5 +7,5 @@ import (
 )
 
 func TestReplay(t *testing.T) {
-	vrt.ReplayMain(map[string]func(){"Harness_transport": Harness_transport, "Harness_strings": Harness_strings})
+	vrt.ReplayMain(map[string]func(){"Harness_transport": Harness_transport, "Harness_strings": Harness_strings, "Harness_jsonvalues": Harness_jsonvalues})
 }
